@@ -188,7 +188,8 @@ def dump_bin(bin_value, version=LATEST_VER):
 
 
 def dump_xstr(xstr_value, version=LATEST_VER):
-    return str(xstr_value)
+    return '%s(%s)' % (xstr_value.encoding,
+                       dump_str(xstr_value.data_to_string(), version=version))
 
 
 def dump_quantity(quantity, version=LATEST_VER):
